@@ -134,6 +134,8 @@ MEMBERS = ["area", "signed_area", "perimeter", "centroid", "center", "planar_mom
 def run_case(i, rng, rec, tier, state):
     cs = state["cs"]
     c = gen.polygon_case(rng)
+    if c.get("straight_corner") is not None:
+        rec.cls("polygon:straight-corner" + (":first-three-collinear" if c["straight_corner"] == 1 else ""))
     V = c["V"]
     use_convex = c["convex"] and rng.random() < 0.4
     cls = cs.ConvexPolygon if use_convex else cs.Polygon
